@@ -49,7 +49,7 @@ def invariant(st, ref):
 def _suffix(text, data, pos):
     n = z3.Length(data)
     ln = z3.If(n - pos > 0, n - pos, z3.IntVal(0))
-    return z3.simplify((z3.SubString if text else z3.Extract)(data, pos, ln))
+    return S.simp((z3.SubString if text else z3.Extract)(data, pos, ln))
 
 
 def call(ex, st, ref, name, args, kwargs, node):
@@ -86,13 +86,13 @@ def call(ex, st, ref, name, args, kwargs, node):
             pad = ex.eng.spec_apply("spec.core", "zeros", [V("int", pos.t - n)]).t
             new = z3.If(pos.t == n, z3.Concat(data.t, b.t),
                         z3.If(pos.t < n, new, z3.Concat(data.t, pad, b.t)))
-        newd = z3.simplify(new)
-        newp = z3.simplify(pos.t + lb)
+        newd = S.simp(new)
+        newp = S.simp(pos.t + lb)
         st.heap[ref.oid]["data"] = V(dty, newd)
         st.heap[ref.oid]["pos"] = V("int", newp)
         if "rem" in obj:
             emp = z3.StringVal("") if text else z3.Empty(S.SeqI)
-            st.heap[ref.oid]["rem"] = V(dty, z3.simplify(z3.If(pos.t >= n, emp, _suffix(text, newd, newp))))
+            st.heap[ref.oid]["rem"] = V(dty, S.simp(z3.If(pos.t >= n, emp, _suffix(text, newd, newp))))
         yield st, V("int", lb)
         return
     if name == "read":
@@ -104,16 +104,16 @@ def call(ex, st, ref, name, args, kwargs, node):
         if "rem" in obj:
             rem = obj["rem"].t
             avail = z3.Length(rem)
-            ln = z3.simplify(z3.If(k < 0, avail, z3.If(k < avail, k, avail)))
-            out = z3.simplify(sub(rem, z3.IntVal(0), ln))
-            st.heap[ref.oid]["rem"] = V(dty, z3.simplify(sub(rem, ln, avail - ln)))
+            ln = S.simp(z3.If(k < 0, avail, z3.If(k < avail, k, avail)))
+            out = S.simp(sub(rem, z3.IntVal(0), ln))
+            st.heap[ref.oid]["rem"] = V(dty, S.simp(sub(rem, ln, avail - ln)))
         else:
             avail = z3.If(n - pos.t > 0, n - pos.t, z3.IntVal(0))
-            ln = z3.simplify(z3.If(k < 0, avail, z3.If(k < avail, k, avail)))
+            ln = S.simp(z3.If(k < 0, avail, z3.If(k < avail, k, avail)))
             out = sub(data.t, pos.t, ln)
-        st.heap[ref.oid]["pos"] = V("int", z3.simplify(pos.t + ln))
+        st.heap[ref.oid]["pos"] = V("int", S.simp(pos.t + ln))
         if "eof_hit" in obj:
-            st.heap[ref.oid]["eof_hit"] = V("bool", z3.simplify(z3.Or(obj["eof_hit"].t, z3.And(k >= 0, ln < k))))
+            st.heap[ref.oid]["eof_hit"] = V("bool", S.simp(z3.Or(obj["eof_hit"].t, z3.And(k >= 0, ln < k))))
         res = V(dty, out)
         # facts that help the sequence solver
         st.assume(z3.Length(out) == ln)
@@ -140,7 +140,7 @@ def call(ex, st, ref, name, args, kwargs, node):
         if len(args) > 1:
             wh = ex.as_int(ex.narrow(st, args[1]))
         newpos = z3.If(wh == 0, off, z3.If(wh == 1, pos.t + off, n + off))
-        newpos = z3.simplify(newpos)
+        newpos = S.simp(newpos)
         # negative positions are outside the model (BytesIO raises ValueError)
         ex.eng.obligation(ex, st, "model.seek_nonneg", newpos >= 0, "model", node)
         st.heap[ref.oid]["pos"] = V("int", newpos)
@@ -155,7 +155,7 @@ def call(ex, st, ref, name, args, kwargs, node):
             k = pos.t
         ex.eng.obligation(ex, st, "model.truncate_in_range", z3.And(k >= 0, k <= n), "model", node)
         sub = z3.SubString if text else z3.Extract
-        newd = z3.simplify(sub(data.t, z3.IntVal(0), k))
+        newd = S.simp(sub(data.t, z3.IntVal(0), k))
         st.heap[ref.oid]["data"] = V(dty, newd)
         if "rem" in obj:
             st.heap[ref.oid]["rem"] = V(dty, _suffix(text, newd, pos.t))
